@@ -154,9 +154,9 @@ def run : Prog → Option Path → SpecSt → CallRes × SpecSt × List CallNode
     | none => (.error .typeErr, s, [])
   | .raise e, _, s => (.error e, s, [])
   | .query q k, t, s => run (k (View.answer s.dirSize (visible s) q)) t s
-  | .write b k, t, s =>
+  | .write b mt k, t, s =>
     match t with
-    | some p => run k t { s with pending := (p, b, s.clock) :: s.pending, clock := s.clock + 1 }
+    | some p => run k t { s with pending := (p, b, mt.getD s.clock) :: s.pending, clock := s.clock + 1 }
     | none => run k t s
   | .buildFile path _ fname args kwargs body k, t, s =>
     match bfSetup s path with
